@@ -174,29 +174,43 @@ def is_id_expr(e, tainted):
 
 
 def gradient_index_rule(run_, pkg):
-    """gradient_index (which depends on list order) is used only in slice bounds, as a dictionary key / set member, and in the
-    order test of the accumulator (whose two arms are proved symmetric by the assembly scenarios)."""
+    """gradient_index (which depends on list order) is a position: it may be stored, used in slice bounds (g, g + dim), as a
+    dictionary key / set member and compared for equality; its *order* may only be used by the accumulator's symmetric
+    upper-triangular convention (proved symmetric by the assembly scenarios), never to scale or otherwise change values."""
     n = 0
     for qual, fn in pkg.all_functions():
         parents = {}
         for node in ast.walk(fn):
             for ch in ast.iter_child_nodes(node):
                 parents[ch] = node
+        tainted = set()
+        for _ in range(2):
+            for node in ast.walk(fn):
+                if isinstance(node, ast.Assign) and len(node.targets) == 1 and isinstance(node.targets[0], ast.Name) and is_gi(node.value, tainted):
+                    tainted.add(node.targets[0].id)
         for node in ast.walk(fn):
-            if isinstance(node, ast.Attribute) and node.attr == "gradient_index" and isinstance(node.ctx, ast.Load):
-                n += 1
-                par = parents.get(node)
-                # climb through `g + dim`
-                top = par
-                while isinstance(top, ast.BinOp) and isinstance(top.op, ast.Add):
-                    top = parents.get(top)
-                ok = isinstance(top, (ast.Slice, ast.Tuple, ast.SetComp, ast.Set, ast.Compare, ast.List, ast.ListComp, ast.comprehension)) or \
-                    (isinstance(par, ast.Compare) and all(isinstance(o, (ast.In, ast.NotIn, ast.Eq, ast.NotEq)) for o in par.ops))
-                if isinstance(par, ast.Compare) and any(isinstance(o, ORDER_OPS) for o in par.ops):
-                    ok = False
-                run_.check(ok, "C08-a/%s/gradient_index-use@%d" % (qual, n), "C08-a-gradient-index-use",
-                           "gradient_index is used in `%s`" % ast.unparse(par)[:60], where="%s:%d" % (fn._gs_module, node.lineno))
+            if not is_gi(node, tainted) or not isinstance(getattr(node, "ctx", ast.Load()), ast.Load):
+                continue
+            n += 1
+            par = parents.get(node)
+            bad = None
+            if isinstance(par, ast.BinOp) and not isinstance(par.op, ast.Add):
+                bad = "arithmetic `%s`" % ast.unparse(par)[:60]
+            elif isinstance(par, ast.UnaryOp) and isinstance(par.op, (ast.USub, ast.Invert)):
+                bad = "arithmetic `%s`" % ast.unparse(par)[:60]
+            elif isinstance(par, ast.Compare) and any(isinstance(o, ORDER_OPS) for o in par.ops) and fn.name != "update":
+                bad = "ordering comparison `%s`" % ast.unparse(par)[:60]
+            elif isinstance(par, ast.Call) and isinstance(par.func, ast.Name) and par.func.id in ("sorted", "min", "max", "abs", "sum", "float") and node in par.args:
+                bad = "numeric use `%s`" % ast.unparse(par)[:60]
+            run_.check(bad is None, "C08-a/%s/gradient_index-use@%d" % (qual, n), "C08-a-gradient-index-use",
+                       "gradient_index is used in %s" % bad, where="%s:%d" % (fn._gs_module, node.lineno))
     run_.floor("uses of gradient_index", n, 6)
+
+
+def is_gi(e, tainted):
+    if isinstance(e, ast.Attribute) and e.attr == "gradient_index":
+        return True
+    return isinstance(e, ast.Name) and e.id in tainted
 
 
 def run(run_, pkg, tier):
